@@ -416,7 +416,7 @@ class Replay:
         self.compare_state(fx, h, i, after_loser, after_run_crash)
 
 
-NSCRIPTS = 4
+NSCRIPTS = 5
 
 
 def generate(chk, n, depth, seed, crashes=2, nprocs=2, nslots=2):
